@@ -208,6 +208,90 @@ Theorem c09_lsp_step_eq_one_shot :
 Proof. exact lsp_step_eq_one_shot. Qed.
 Print Assumptions c09_lsp_step_eq_one_shot.
 
+(* ---- histories: a file goes from some directives to none and back ------------------------------------ *)
+
+(* Model/AggPipeline.v [dirs_update old new]: the hand-over of directives as an explicit map update -- every entry
+   of [new] REPLACES the entry [old] has for the same file; [lint_dirs given own] = what the aggregate report of a
+   Lint call sees (provided map, overwritten by the entries of the files the run lints itself; a linted file has an
+   entry also when it has no directive: the empty object).  Model/AggCache.v: [set_file_ignore_directives] is
+   cache.SetFileIgnoreDirectives (Set(uri, data[uri]): replaces in every case), [lsp_init]/[lsp_replace]/
+   [lsp_report] the language server's start-up lint, single-file re-lint and aggregate-report-only run,
+   [lsp_history fs0 edits] the state after writing the files of [edits] one after the other,
+   [files_after fs0 edits] the workspace contents after them. *)
+
+(* Any history of single-file replacements followed by the incremental report equals (as multisets) ONE Lint call
+   over the final contents, inline ignores included: whichever directives a file had on the way -- none, some, none
+   again -- only its final contents count. *)
+Theorem c09_incremental_directives_eq_fresh :
+  forall (File Agg : Type) (fname : File -> str) (fcomments : File -> list comment) (brules ckeys : list str)
+         (B_aggregate : str -> File -> list Agg) (C_aggregate : str -> File -> option (list Agg))
+         (B_report C_report : str -> list Agg -> list violation) (src ikey : Agg -> str),
+  (forall r a b, Permutation a b -> Permutation (B_report r a) (B_report r b)) ->
+  (forall k a b, Permutation a b -> Permutation (C_report k a) (C_report k b)) ->
+  forall (fs0 edits : list File),
+  let final := files_after File fname fs0 edits in
+  NoDup (map fname fs0) -> (2 <= length fs0)%nat ->
+  well_sourced File Agg fname brules ckeys B_aggregate C_aggregate src (fs0 ++ edits) ->
+  well_keyed File Agg brules ckeys B_aggregate C_aggregate ikey final ->
+  no_bare_marker File Agg brules ckeys B_aggregate C_aggregate final ->
+  (2 <= length final)%nat ->
+  Permutation
+    (lsp_report File Agg fname fcomments brules ckeys B_report C_report ikey
+       (lsp_history File Agg fname fcomments brules ckeys B_aggregate C_aggregate src fs0 edits))
+    (one_shot File Agg fname fcomments brules ckeys B_aggregate C_aggregate B_report C_report final).
+Proof. exact incremental_directives_eq_fresh. Qed.
+Print Assumptions c09_incremental_directives_eq_fresh.
+
+(* the directive cache on its own: SetIgnoreDirectives of the start-up run, then SetFileIgnoreDirectives per
+   re-linted file -- handed to the report-only run it decides like one run over the final contents *)
+Theorem c09_lsp_history_directives :
+  forall (File : Type) (fname : File -> str) (fcomments : File -> list comment)
+         (fs0 edits : list File) (v : violation),
+  NoDup (map fname fs0) ->
+  agg_ignored
+    (lint_dirs File fname fcomments
+       (fold_left (fun g f' => set_file_ignore_directives (fname f') (exported_dirs File fname fcomments [f']) g) edits
+                  (set_ignore_directives (exported_dirs File fname fcomments fs0))) []) v =
+  agg_ignored (carry (results_of File fname fcomments (files_after File fname fs0 edits))) v.
+Proof. exact lsp_history_directives. Qed.
+Print Assumptions c09_lsp_history_directives.
+
+(* The same through the public API: a client that keeps every file's own export and ONE directive map updated from
+   each run's Report.IgnoreDirectives; report-only run ... *)
+Theorem c09_api_incremental_directives_eq_fresh :
+  forall (File Agg : Type) (fname : File -> str) (fcomments : File -> list comment) (brules ckeys : list str)
+         (B_aggregate : str -> File -> list Agg) (C_aggregate : str -> File -> option (list Agg))
+         (B_report C_report : str -> list Agg -> list violation),
+  (forall r a b, Permutation a b -> Permutation (B_report r a) (B_report r b)) ->
+  (forall k a b, Permutation a b -> Permutation (C_report k a) (C_report k b)) ->
+  forall (fs0 edits : list File),
+  NoDup (map fname fs0) -> (2 <= length (files_after File fname fs0 edits))%nat ->
+  Permutation
+    (api_report File Agg fname fcomments brules ckeys B_aggregate C_aggregate B_report C_report
+       (api_history File fname fcomments fs0 edits))
+    (one_shot File Agg fname fcomments brules ckeys B_aggregate C_aggregate B_report C_report
+       (files_after File fname fs0 edits)).
+Proof. exact api_incremental_directives_eq_fresh. Qed.
+Print Assumptions c09_api_incremental_directives_eq_fresh.
+
+(* ... and with the last replaced file f' linted by the reporting run itself while the provided map is the one of
+   BEFORE that replacement (stale for f'): the run's own entry wins, also when it is empty *)
+Theorem c09_api_mixed_directives_eq_fresh :
+  forall (File Agg : Type) (fname : File -> str) (fcomments : File -> list comment) (brules ckeys : list str)
+         (B_aggregate : str -> File -> list Agg) (C_aggregate : str -> File -> option (list Agg))
+         (B_report C_report : str -> list Agg -> list violation),
+  (forall r a b, Permutation a b -> Permutation (B_report r a) (B_report r b)) ->
+  (forall k a b, Permutation a b -> Permutation (C_report k a) (C_report k b)) ->
+  forall (fs0 edits : list File) (f' : File),
+  NoDup (map fname fs0) -> (2 <= length (files_after File fname fs0 (edits ++ [f'])))%nat ->
+  Permutation
+    (api_report_mixed File Agg fname fcomments brules ckeys B_aggregate C_aggregate B_report C_report
+       (api_history File fname fcomments fs0 edits) f')
+    (one_shot File Agg fname fcomments brules ckeys B_aggregate C_aggregate B_report C_report
+       (files_after File fname fs0 (edits ++ [f']))).
+Proof. exact api_mixed_directives_eq_fresh. Qed.
+Print Assumptions c09_api_mixed_directives_eq_fresh.
+
 (* Rename moves a file's entries to the new key; they keep naming the old file until it is re-collected *)
 Theorem c09_cache_rename :
   forall (Agg : Type) (c : cache Agg) (old new : str),
@@ -236,3 +320,30 @@ Proof.
   - apply perm_swap.
   - reflexivity.
 Qed.
+
+(* a history in which file "a" has a directive, loses it, and gets it back: the hypotheses of
+   c09_incremental_directives_eq_fresh are met and the incremental report follows (reported only in the middle) *)
+Example c09_history_nonvacuous :
+  let d := [{| c_row := 3; c_text := 32%N :: MARKER ++ [120%N] |}] in
+  let fcomments (f : N * bool) := if snd f then d else [] in
+  let fname (f : N * bool) := [fst f] in
+  let bagg (_ : str) (f : N * bool) := [fst f] in
+  let cagg (_ : str) (_ : N * bool) : option (list N) := None in
+  let src (a : N) : str := [a] in
+  let ikey (_ : N) : str := [114%N] in
+  let fs0 := [(97%N, true); (98%N, false)] in
+  let report edits :=
+    lsp_report (N * bool) N fname fcomments [[114%N]] [] ex_brep ex_crep ikey
+      (lsp_history (N * bool) N fname fcomments [[114%N]] [] bagg cagg src fs0 edits) in
+  NoDup (map fname fs0) /\ (2 <= length fs0)%nat /\
+  well_sourced (N * bool) N fname [[114%N]] [] bagg cagg src (fs0 ++ [(97%N, false); (97%N, true)]) /\
+  report [] = [] /\
+  report [(97%N, false)] = [ex_v 120 [97%N] 4] /\
+  report [(97%N, false); (97%N, true)] = [].
+Proof.
+  cbn zeta. split; [repeat constructor; cbn; intuition discriminate|]. split; [cbn; auto|]. split.
+  - intros f a Hf Ha. cbn in Hf. unfold entries_of, file_aggs, flatten in Ha. cbn in Ha.
+    destruct Ha as [<-|[]]. reflexivity.
+  - repeat split; vm_compute; reflexivity.
+Qed.
+
